@@ -20,6 +20,8 @@ class C17(Prop):
         "NV.C17.never_stale_transitive",
         "NV.C17.fresh_binary_used",
         "NV.C17.include_resolution_partial",
+        "NV.C17.includes_resolve_as_recorded",
+        "NV.C17.incOpen_spec",
         "NV.C17.saved_only_against_current_parents",
         "NV.C17.current_parents_are_saved",
         "NV.C17.swap_loop_correct",
@@ -134,6 +136,8 @@ class C17(Prop):
                 raise X.TieBroken("load_binary:" + name, "comparison site `%s` not found in load_binary (pattern %s)" % (name, pat))
         need_lb("source", r"check_times\s*\(mtime,\s*name\)\s*<=\s*0")
         need_lb("include", r"check_times\s*\(mtime,\s*iname\)\s*<=\s*0")
+        need_lb("missing-include", r"if\s*\(iname\[0\]\s*==\s*'!'\)\s*\{[^{}]*if\s*\(check_times\s*\(mtime,\s*iname \+ 1\)\s*!=\s*-1\)\s*\{[^{}]*return OUT_OF_DATE;\s*\}\s*continue;\s*\}\s*if\s*\(check_times\s*\(mtime,\s*iname\)\s*<=\s*0\)")
+        self.tie_inc_open()
         need_lb("inherit", r"check_times\s*\(mtime,\s*buf\)\s*<=\s*0\s*\|\|\s*check_times\s*\(mtime,\s*file_name_two\)\s*==\s*0")
         need_lb("binary-path", r"if\s*\(file_name\[0\]\s*==\s*'/'\)\s*file_name\+\+;")
         need_lb("inherited-binary-path", r"if\s*\(file_name_two\[0\]\s*==\s*'/'\)\s*file_name_two\+\+;")
@@ -219,6 +223,34 @@ class C17(Prop):
             "/-- C: check_times() answers 0 (out of date) when `st.st_mtime %s mtime` -/" % op,
             "def checkTimesStrict : Bool := %s" % ("true" if op == ">" else "false"),
         ] + layout)
+
+    def tie_inc_open(self):
+        """inc_open (lex.c) notes, before it returns the file found in an include directory, the candidate next to the
+        including file and the candidates of every earlier include directory; add_program_missing_file (compiler.c)
+        stores them as '!' entries of A_INCLUDES"""
+        lx = re.sub(r"/\*.*?\*/", "", open(os.path.join(E.REPO, "lib/lpc/lex.c")).read(), flags=re.S)
+        a = lx.find("static int inc_open (char *buf, const char *name) {")
+        body = re.sub(r"\s+", " ", lx[a:lx.find("#define include_error", a)]) if a >= 0 else ""
+        want = ["inc_lexically_normal (current_file, name, buf);",
+                "if (legal_path (buf) && (fd = FILE_OPEN (buf, O_RDONLY)) != -1)",
+                "first[0] = '\\0'; if (legal_path (buf)) strcpy (first, buf);",
+                "for (i = 0; i < inc_list_size; i++)",
+                "sprintf (buf, \"%s/%s\", inc_list[i], name); if ((fd = FILE_OPEN (buf, O_RDONLY)) != -1)",
+                "add_program_missing_file (first); for (j = 0; j < i; j++)",
+                "sprintf (missed, \"%s/%s\", inc_list[j], name); add_program_missing_file (missed);",
+                "return fd;"]
+        pos, at = [], 0
+        for t in want:
+            k = body.find(t, at)
+            pos.append(k)
+            at = k + 1 if k >= 0 else at
+        if -1 in pos:
+            raise X.TieBroken("lex.c:inc_open", "inc_open no longer tries the candidates / notes the missed ones in the modelled order: "
+                              "missing %s" % [t for t, k in zip(want, pos) if k < 0][:2])
+        cp = re.sub(r"\s+", "", re.sub(r"/\*.*?\*/", "", open(os.path.join(E.REPO, "lib/lpc/compiler.c")).read(), flags=re.S))
+        if "voidadd_program_missing_file(constchar*path){charentry[PATH_MAX+1];if(!mem_block[A_INCLUDES].block||!path[0]||strlen(path)>=PATH_MAX)return;" \
+           "entry[0]='!';strcpy(entry+1,path);add_to_mem_block(A_INCLUDES,entry,strlen(entry)+1);}" not in cp:
+            raise X.TieBroken("compiler.c:add_program_missing_file", "the '!' entry of the include list is no longer written as modelled")
 
     def gen_functions(self, src, sv):
         """small functions the model mirrors statement by statement: their text (comments and white space removed) must be
